@@ -169,7 +169,7 @@ Writes(t, dip, dport) == t.pid \notin skip /\ (Has(localMap, TKey(t)) \/ Key(dip
 LeftAfter(t, s, dip, dport) ==
   left' = [x \in SPorts |-> IF ~Has(auditMap', AKey(TCP, x)) \/ (x = s /\ Writes(t, dip, dport)) THEN None ELSE left[x]]
 
-TcpConnect(t, s) ==
+TcpConnectAt(t, s) ==
   /\ pc[t] = "hooked" /\ truth[s] = None
   /\ Publish(t, s, cur[t].nip, cur[t].nport)
   /\ LeftAfter(t, s, cur[t].nip, cur[t].nport)
@@ -180,6 +180,11 @@ TcpConnect(t, s) ==
                                    ELSE None]
   /\ pc' = [pc EXCEPT ![t] = "idle"] /\ cur' = [cur EXCEPT ![t] = Idle]
   /\ UNCHANGED <<policy, skip, lastOther>>
+
+\* the port is one nothing lies under / one that still carries the record of an earlier connection (the same step,
+\* named apart so that the coverage of the exhaustive runs shows that ports of leftovers are handed out again)
+TcpConnect(t, s) == left[s] = None /\ TcpConnectAt(t, s)
+TcpConnectReuse(t, s) == left[s] # None /\ TcpConnectAt(t, s)
 
 \* a TCP connect by a socket the cgroup hook never ran for (not diverted; recorded by the fallback path)
 TcpConnectDirect(t, ip, port, s) ==
@@ -203,7 +208,7 @@ Next == \/ AgentPolicy
         \/ \E s \in SPorts : Release(s)
         \/ \E s \in SPorts : EndUnconsumed(s)
         \/ \E t \in Threads, ip \in Ips, port \in Ports, proto \in Protos : Connect4(t, ip, port, proto)
-        \/ \E t \in Threads, s \in SPorts : TcpConnect(t, s)
+        \/ \E t \in Threads, s \in SPorts : TcpConnect(t, s) \/ TcpConnectReuse(t, s)
         \/ \E t \in Threads, ip \in Ips, port \in Ports, s \in SPorts : TcpConnectDirect(t, ip, port, s)
         \/ \E t \in Threads : Abort(t)
 Spec == Init /\ [][Next]_vars
@@ -265,7 +270,13 @@ MC_Threads == { [pid |-> 1, tid |-> 1, uid |-> 0, gid |-> 5],      \* root whose
                 [pid |-> 2, tid |-> 4, uid |-> 7, gid |-> 0],      \* a second thread of the same process
                 [pid |-> 9, tid |-> 9, uid |-> 0, gid |-> 0] }     \* the agent
 MC_AgentPids == {9}
+\* mc/EbpfLeft.cfg (leftover records and reuse of their source ports): two callers that differ in uid, pid and
+\* uid = 0, and the agent
+MC_ThreadsLeft == { [pid |-> 1, tid |-> 1, uid |-> 0, gid |-> 5],
+                    [pid |-> 2, tid |-> 3, uid |-> 7, gid |-> 0],
+                    [pid |-> 9, tid |-> 9, uid |-> 0, gid |-> 0] }
 MC_Listable == {<<"A", "p">>, <<"B", "p">>}
+SymSPorts == Permutations(SPorts)      \* source ports are only ever compared for equality (mc/EbpfLeft.cfg: model values)
 MC_Proxy == [ip |-> "L", port |-> "lp"]
 
 GEN_Threads == { [pid |-> 1, tid |-> 1, uid |-> 0, gid |-> 5],
